@@ -81,3 +81,13 @@ check("C18",
       design_ref="DESIGN.md 5/C18",
       level_text="exhaustive within bounds",
       level_note="concurrent ID generation and manager lifetimes are covered by the scheduler cells")
+
+check("C12",
+      packages=["l0wire"],
+      category="exploration",
+      technique="exhaustive enumeration of constructor argument products and of systematic byte/type mutations of canonical encodings, against an independent DAG-CBOR encoder of the published schema",
+      rule="(a) every constructor x argument domain (IDs incl. 2^63, 2^64-1; CIDs; selectors; IPLD value family; type ids; peer ids) round-tripped through ToNet/FromNet, ToIPLD/FromIPLD, ToExtensionData/GetTransferData, compared field by field and byte by byte with the harness's own schema encoder; (b) key permutations; (c) all byte strings of length <=2, every truncation / single-byte substitution / deletion / duplication of canonical encodings, every type confusion of every field. distinct = distinct encodings + distinct decoded observations.",
+      design_ref="DESIGN.md 5/C12",
+      level_text="exhaustive within the stated argument domains and single-mutation neighbourhoods",
+      level_note="ipld-prime's generic dag-cbor codec is trusted for encoding voucher/selector values inside the independent encoder; inputs with >=2 simultaneous corruptions are outside the bound",
+      assumptions=["pure functions; no bubble needed", "ipld-prime generic dag-cbor codec trusted for embedded Any values"])
